@@ -167,6 +167,14 @@ def oracle(case, which):
                     if e['k'] == 'start' and not any(x['k'] == 'cancel' and x.get('i') == e['i'] for x in r.events[i:]):
                         out.append(('executed_instead_of_cancelled', {'future': e['i']}))
                         break
+                # ... and the cancel loop is what the consumer does FIRST: a computation that starts while the consumer
+                # is still busy with something else (closing its input) did not lose a race, it was not cancelled in time
+                fc = next((i for i, e in enumerate(r.events) if i > ci and e['k'] == 'cancel'), len(r.events))
+                busy = [i for i, e in enumerate(r.events[ci:fc], ci) if e['k'] == 'source_close']
+                if busy:
+                    st = [e['i'] for e in r.events[ci:busy[-1]] if e['k'] == 'start']
+                    if st and not any(c == 'executed_instead_of_cancelled' for c, _ in out):
+                        out.append(('executed_instead_of_cancelled', {'futures': st, 'while': 'the consumer closed its input before cancelling'}))
                 left = [f.idx for f in r.pool.futs if f.state == 'pending']
                 if left:
                     out.append(('pending_after_close', {'futures': left}))
